@@ -112,10 +112,15 @@ impl GameData {
                 .collect();
 
             for repository_path in repository_paths {
-                if let Some(expansion_repository) = Repository::from_existing_expansion(
-                    platform.clone(),
-                    repository_path.path().to_str().unwrap(),
-                ) {
+                // a directory whose name is not UTF-8 is not a repository
+                let repository_path = repository_path.path();
+                let Some(repository_path) = repository_path.to_str() else {
+                    continue;
+                };
+
+                if let Some(expansion_repository) =
+                    Repository::from_existing_expansion(platform.clone(), repository_path)
+                {
                     self.repositories.push(expansion_repository);
                 }
             }
